@@ -1,0 +1,11 @@
+//go:build !verif
+
+package decoder
+
+import "unsafe"
+
+// hooks of the verification build (see verif_pool.go); empty here
+
+func verifTrackArray(unsafe.Pointer, int) {}
+
+func verifCheckSliceHeader(*sliceHeader) {}
